@@ -185,7 +185,14 @@ def _deps_ok(sc: dict, lay, cut_dev: int) -> Optional[Dict[str, bool]]:
             part = m["partitions"][pi]
             for vl in p.volumes:
                 vol = part["volumes"][vl.idx]
-                dir_ok = all(before(a, A.SECTOR) for a in vl.dir_abs[:1]) and before(vl.dir_abs[0], 24 * (len(vl.files) + 1))
+                # the directory is needed up to and including its end-of-table entry (live and deleted entries before it), not
+                # to the end of its last sector
+                need = 24 * (len(vl.files) + len(vol.get("ghosts", [])) + 1)
+                dir_ok = True
+                for j, a in enumerate(vl.dir_abs):
+                    nj = min(A.SECTOR, need - j * A.SECTOR)
+                    if nj > 0:
+                        dir_ok = dir_ok and before(a, nj)
                 fl_ok = {}
                 for f in vl.files:
                     left, ok = f.size, True
